@@ -162,7 +162,43 @@ func engineNLPAnalysis(ctx *Ctx) {
 	r := vlib.NewRand(ctx.Seed, ctx.Shard, "nlpanalysis")
 	n := ctx.N(40000, 400000)
 	shared := nlp.NewQueryProcessor()
+	// analyses remembered over the whole run: a text analysed again much later - after hundreds of other texts,
+	// among them texts that differ from it only in punctuation or spacing - must still get the same analysis
+	remembered := map[string]string{}
+	var ring []string
+	render := func(pq *nlp.ProcessedQuery) string {
+		return fmt.Sprintf("%q|%v|%v|%v|%v|%v|%v", pq.Cleaned, pq.Actions, pq.Targets, pq.Keywords, pq.Intent, pq.Modifiers, pq.GetEnhancedKeywords())
+	}
 	for i := 0; i < n; i++ {
+		if len(ring) > 50 && r.Intn(4) == 0 {
+			old := ring[r.Intn(len(ring))]
+			variant := old
+			switch r.Intn(3) {
+			case 0: // a text that cleans to the same string: punctuation / extra blanks inside
+				f := strings.Fields(old)
+				if len(f) > 1 {
+					k := 1 + r.Intn(len(f)-1)
+					variant = strings.Join(f[:k], " ") + []string{"; ", ", ", "  ", " ! ", "? "}[r.Intn(5)] + strings.Join(f[k:], " ")
+				}
+			}
+			for _, t := range []string{variant, old} {
+				cs := map[string]interface{}{"query": t, "revisited_after": i}
+				ctx.R.Begin(cs)
+				ctx.R.Eval(1)
+				ctx.R.Guard("C06", "ProcessQuery", cs, func() {
+					got := render(shared.ProcessQuery(t))
+					if prev, ok := remembered[t]; ok && prev != got {
+						ctx.R.Violate(vlib.Violation{Property: "C06", Clause: "analysis-not-repeatable", Path: "ProcessQuery/revisited",
+							Detail:  fmt.Sprintf("the analysis of %s changed between two points of the run", vlib.Q(t)),
+							Witness: map[string]interface{}{"case": cs, "first": prev, "now": got}})
+					} else if !ok {
+						remembered[t] = got
+					}
+					ctx.R.Path("analysis-revisited", 1)
+				})
+			}
+			continue
+		}
 		nw := 1 + r.Intn(14)
 		parts := make([]string, 0, nw)
 		for k := 0; k < nw; k++ {
@@ -178,8 +214,8 @@ func engineNLPAnalysis(ctx *Ctx) {
 			parts = append(parts, w)
 		}
 		q := strings.Join(parts, []string{" ", " ", "  ", "\t", ", "}[r.Intn(5)])
-		if r.Intn(20) == 0 {
-			q = "see " + q + " without opening"
+		if r.Intn(12) == 0 {
+			q = []string{"see ", "reading ", "preview ", "looking at "}[r.Intn(4)] + q + []string{" without opening", " without editing it", " without; opening"}[r.Intn(3)]
 		}
 		cs := map[string]interface{}{"query": q}
 		ctx.R.Begin(cs)
@@ -187,6 +223,14 @@ func engineNLPAnalysis(ctx *Ctx) {
 		ctx.R.Guard("C06", "ProcessQuery", cs, func() {
 			pq := shared.ProcessQuery(q)
 			enh := pq.GetEnhancedKeywords()
+			if _, ok := remembered[q]; !ok && len(remembered) < 200000 {
+				remembered[q] = render(pq)
+				if len(ring) < 4000 {
+					ring = append(ring, q)
+				} else {
+					ring[r.Intn(len(ring))] = q
+				}
+			}
 			// repeatable: same processor and a fresh one
 			pq2 := shared.ProcessQuery(q)
 			pq3 := nlp.NewQueryProcessor().ProcessQuery(q)
